@@ -251,6 +251,15 @@ theorem device_accepted_cpu_only (n c : Nat) (v : Tree) (a : Atom)
     · simp at h
     · simp at h
   · simp at h
+  · -- a torch.device object
+    simp only [finishMps] at h
+    split at h
+    · simp at h
+    · split at h
+      · simp at h
+      · split at h
+        · simp at h; exact h.symm
+        · simp at h
   · simp at h
 
 /-- **refresh restores exactly the accumulated defaults** (with a hermetic, empty yaml
